@@ -51,6 +51,14 @@ def main():
         if cdm:
             sub = re.sub(r"/tmp/wt/[A-Za-z0-9]+/?", "", cdm.group(1))
         gocmd = re.sub(r"/tmp/wt/[A-Za-z0-9]+", repo, gocmd)
+        # the package the demo is run in is the most reliable hint for where it has to be copied
+        if a.copy_to is None:
+            toks = gocmd.replace("'", "").split()
+            tgt = toks[-1] if toks else "."
+            if tgt == "." or tgt.startswith("./"):
+                cand = os.path.normpath(os.path.join(sub or ".", tgt))
+                if os.path.isdir(os.path.join(repo, cand)):
+                    copy_to = cand
         res["demo_cmd"] = gocmd
         res["demo_dir"] = copy_to
         demofiles = [f for f in os.listdir(seed) if f.endswith("_test.go")]
